@@ -3,6 +3,8 @@ package optrt
 import (
 	"fmt"
 	"reflect"
+	"runtime"
+	"runtime/debug"
 	"unsafe"
 
 	"github.com/fogfish/golem/optics"
@@ -406,4 +408,101 @@ func sameIso[S, T any](a, b optics.Isomorphism[S, T]) bool {
 		return va.Pointer() == vb.Pointer() && va.Len() == vb.Len()
 	}
 	return true
+}
+
+// ---------------------------------------------------------------- garbage collector
+
+// GCHandover: values that hold pointers are handed from container to container through the optic only
+// (v := Get(a); Put(b, v); Put(a, zero)) while the collector runs back to back. After a hand-over the value
+// is reachable through the field the optic wrote and nowhere else; a store that the collector is not told about
+// (bytes copied into a pointer slot behind its back) lets it free the value under the container: the check
+// then finds other content, or the runtime aborts (found pointer to free object / checkmark failure with
+// GODEBUG=gccheckmark=1,clobberfree=1, which the driver sets), attributed to this case by the write-ahead log.
+// mk(i) builds a fresh heap value recognisable as number i, check(v, i) tells whether v still is that value.
+func GCHandover[S any](o Optic[S], zero any, mk func(i int) any, check func(v any, i int) bool) {
+	const boxes, moves = 192, 30000
+	old := debug.SetGCPercent(5)
+	defer debug.SetGCPercent(old)
+	bs := make([]*S, boxes)
+	ids := make([]int, boxes)
+	for j := range bs {
+		bs[j] = new(S)
+		o.Fill(bs[j], j)
+		ids[j] = -1
+		o.Put(bs[j], zero)
+	}
+	next := 0
+	for j := 0; j < boxes; j += 2 {
+		next++
+		o.Put(bs[j], mk(next))
+		ids[j] = next
+	}
+	stop := make(chan struct{})
+	done := make(chan struct{})
+	go func() {
+		defer close(done)
+		var junk [][]byte
+		for k := 0; ; k++ {
+			select {
+			case <-stop:
+				return
+			default:
+			}
+			runtime.GC()
+			// garbage of the usual small size classes takes the memory of whatever was freed
+			junk = junk[:0]
+			for z := 0; z < 256; z++ {
+				b := make([]byte, 8<<(z%5))
+				for q := range b {
+					b[q] = 0xAB
+				}
+				junk = append(junk, b)
+			}
+			keep(junk)
+		}
+	}()
+	r := newRand(uint64(len(o.C.ID)) + 77)
+	bad := ""
+	verify := func() {
+		for j := range bs {
+			if ids[j] < 0 {
+				continue
+			}
+			v := o.Get(bs[j])
+			if !check(v, ids[j]) {
+				bad = fmt.Sprintf("the value put into container %d (number %d) is no longer what Get returns: %s", j, ids[j], show(v))
+				return
+			}
+		}
+	}
+	if pn, msg := Derive(func() {
+		for m := 0; m < moves && bad == ""; m++ {
+			a, b := r.IntN(boxes), r.IntN(boxes)
+			switch {
+			case ids[a] >= 0 && ids[b] < 0:
+				o.Put(bs[b], o.Get(bs[a])) // the only copy moves
+				o.Put(bs[a], zero)
+				ids[b], ids[a] = ids[a], -1
+			case ids[a] >= 0 && ids[b] >= 0 && a != b:
+				next++
+				o.Put(bs[a], mk(next)) // replaced by a fresh value
+				ids[a] = next
+			}
+			if m%4096 == 4095 {
+				runtime.Gosched()
+				verify()
+			}
+		}
+		if bad == "" {
+			verify()
+		}
+	}); pn {
+		bad = "panic: " + msg
+	}
+	close(stop)
+	<-done
+	if bad != "" {
+		vio(o.Prop, o.C, "gc-handover", "%s", bad)
+	}
+	Rec.Count("gc_handover_moves", moves)
 }
